@@ -19,6 +19,8 @@ Shapes are nested tuples:
   ('align', d)
   ('hang', off, d)
   ('ann', tagno, d)   annotation number tagno
+  ('sh', key, d)      a shared sub-document: every occurrence with the same key
+                      is the very same Doc object (d must be identical)
 
 All arithmetic on text lengths, offsets, widths may be symbolic (CrossHair);
 all structural decisions use concrete facts only.
@@ -35,8 +37,14 @@ B = 0
 # --------------------------------------------------------------------------
 # building the real document through the public combinators
 
-def build(shape, leaves, offs, anns):
+def build(shape, leaves, offs, anns, _shared=None):
+    if _shared is None:
+        _shared = {}
     kind = shape[0]
+    if kind == 'sh':
+        if shape[1] not in _shared:
+            _shared[shape[1]] = build(shape[2], leaves, offs, anns, _shared)
+        return _shared[shape[1]]
     if kind == 't':
         return leaves[shape[1]]
     if kind == 's':
@@ -44,11 +52,11 @@ def build(shape, leaves, offs, anns):
     if kind == 'nil':
         return D.NIL
     if kind == 'cat':
-        return D.concat([build(c, leaves, offs, anns) for c in shape[1]])
+        return D.concat([build(c, leaves, offs, anns, _shared) for c in shape[1]])
     if kind == 'nest':
-        return D.nest(_off(shape[1], offs), build(shape[2], leaves, offs, anns))
+        return D.nest(_off(shape[1], offs), build(shape[2], leaves, offs, anns, _shared))
     if kind == 'grp':
-        return D.group(build(shape[1], leaves, offs, anns))
+        return D.group(build(shape[1], leaves, offs, anns, _shared))
     if kind == 'line':
         return D.LINE
     if kind == 'softline':
@@ -57,18 +65,18 @@ def build(shape, leaves, offs, anns):
         return D.HARDLINE
     if kind == 'fc':
         return D.flat_choice(
-            when_broken=build(shape[1], leaves, offs, anns),
-            when_flat=build(shape[2], leaves, offs, anns))
+            when_broken=build(shape[1], leaves, offs, anns, _shared),
+            when_flat=build(shape[2], leaves, offs, anns, _shared))
     if kind == 'ab':
-        return D.always_break(build(shape[1], leaves, offs, anns))
+        return D.always_break(build(shape[1], leaves, offs, anns, _shared))
     if kind == 'fill':
-        return D.fill([build(c, leaves, offs, anns) for c in shape[1]])
+        return D.fill([build(c, leaves, offs, anns, _shared) for c in shape[1]])
     if kind == 'align':
-        return D.align(build(shape[1], leaves, offs, anns))
+        return D.align(build(shape[1], leaves, offs, anns, _shared))
     if kind == 'hang':
-        return D.hang(_off(shape[1], offs), build(shape[2], leaves, offs, anns))
+        return D.hang(_off(shape[1], offs), build(shape[2], leaves, offs, anns, _shared))
     if kind == 'ann':
-        return D.annotate(anns[shape[1]], build(shape[2], leaves, offs, anns))
+        return D.annotate(anns[shape[1]], build(shape[2], leaves, offs, anns, _shared))
     raise ValueError(shape)
 
 
@@ -78,6 +86,8 @@ def _off(o, offs):
 
 def strip_annotations(shape):
     kind = shape[0]
+    if kind == 'sh':
+        return ('sh', shape[1], strip_annotations(shape[2]))
     if kind == 'ann':
         return strip_annotations(shape[2])
     if kind in ('cat', 'fill'):
@@ -113,6 +123,8 @@ def shape_stats(shape):
             if s[1][0] == 'v':
                 offv.add(s[1][1])
             walk(s[2])
+        elif k == 'sh':
+            walk(s[2])
         elif k in ('grp', 'ab', 'align'):
             walk(s[1])
         elif k == 'fc':
@@ -133,7 +145,7 @@ def has_forced(shape):
         return True
     if k in ('cat', 'fill'):
         return any(has_forced(c) for c in shape[1])
-    if k in ('nest', 'hang', 'ann'):
+    if k in ('nest', 'hang', 'ann', 'sh'):
         return has_forced(shape[2])
     if k in ('grp', 'align'):
         return has_forced(shape[1])
@@ -148,7 +160,7 @@ def contains_kind(shape, kinds):
         return True
     if k in ('cat', 'fill'):
         return any(contains_kind(c, kinds) for c in shape[1])
-    if k in ('nest', 'hang', 'ann'):
+    if k in ('nest', 'hang', 'ann', 'sh'):
         return contains_kind(shape[2], kinds)
     if k in ('grp', 'align', 'ab'):
         return contains_kind(shape[1], kinds)
@@ -306,6 +318,8 @@ class Matcher:
             return self._lit(s[1], pos, forced, k)
         if kind == 'nil':
             return k(pos, forced)
+        if kind == 'sh':
+            return self.m(s[2], mode, ind, pos, forced, rest, k)
         if kind == 'cat':
             return self._seq(s[1], 0, mode, ind, pos, forced, rest, k)
         if kind == 'nest':
@@ -434,7 +448,7 @@ class Unmodelled(Exception):
     pass
 
 
-def flat_lookahead(rest_first, page_width, min_nesting, smart, leaves, offs):
+def flat_lookahead(rest_first, page_width, min_nesting, smart, leaves, offs, start_col=None):
     """Width needed on the current line by the triples in ``rest_first``
     (a Python list of (ind, mode, shape), first element first) followed
     lazily by nothing else.  Returns (first_line_width, forced_seen,
@@ -450,6 +464,7 @@ def flat_lookahead(rest_first, page_width, min_nesting, smart, leaves, offs):
     first_line = None          # width of the first line once it ended
     stack = list(reversed(rest_first))
     cur = 0                    # width on the current lookahead line
+    base = start_col           # output column at which the current lookahead line started
     budget = None              # page budget for continuation lines
     later_overflow = False
     while stack:
@@ -481,12 +496,12 @@ def flat_lookahead(rest_first, page_width, min_nesting, smart, leaves, offs):
                     if cur > budget:
                         later_overflow = True
                 if smart and ind is None:
-                    # the indentation of this break depends on an align/hang
-                    # column: continuation lines are not modelled
+                    # below an align/hang whose column is unknown (no start column given)
                     raise Unmodelled('line break below align/hang under the smart strategy')
                 if smart and ind > min_nesting:
                     budget = page_width - ind
                     cur = 0
+                    base = ind
                 else:
                     return first_line, False, later_overflow
         elif kind == 'fc':
@@ -497,14 +512,17 @@ def flat_lookahead(rest_first, page_width, min_nesting, smart, leaves, offs):
             # an always_break met on a continuation line also makes the smart
             # predicate fail
             return first_line, True, later_overflow
-        elif kind == 'ann':
+        elif kind in ('ann', 'sh'):
             stack.append((ind, mode, s[2]))
         elif kind == 'align':
-            # on the current line an align only changes the indentation of later
-            # breaks (unknown here: None)
-            stack.append((None, mode, s[1]))
+            # an align re-bases the indentation of later breaks to the current
+            # *output* column (exact semantics; the engine's own lookahead uses a
+            # smaller, relative column, so it never sees more overflow than this)
+            col = None if base is None else base + cur
+            stack.append((col, mode, s[1]))
         elif kind == 'hang':
-            stack.append((None, mode, s[2]))
+            col = None if base is None else base + cur + _off(s[1], offs)
+            stack.append((col, mode, s[2]))
         else:
             raise ValueError(s)
     if first_line is None:
